@@ -209,5 +209,8 @@ func genCoincidingNames(rt *rapid.T) string {
 	fmt.Fprintf(&b, "%s k = fn1(%s);\n%s k();\n", V, strings.Join(args, ", "), P)
 	// the outer bindings afterwards
 	fmt.Fprintf(&b, "%s a;\n%s b;\n%s sib(\"!\");\n%s %s([1, 2]);\n%s %s(2.5);\n%s %s(1, 2);\n%s %s({z: 1});\n%s fn1 == fn1;\n", P, P, P, P, bn.BLen, P, bn.BRound, P, bn.BMax, P, bn.BKeys, P)
+	// the functions' names re-bound in their declaring scope while the old function values live on elsewhere:
+	// calling the old values must not touch the new bindings
+	fmt.Fprintf(&b, "%s holder = [fn1, sib, three];\nfn1 = \"rebound\";\nsib = 77;\n%s\nthree = 3;\n%s holder[1](\"?\");\n%s [fn1, sib];\nholder[0](%s);\n%s [fn1, sib];\n%s holder[2](0) + three;\n", V, "// the old values live on in holder", P, P, strings.Join(args, ", "), P, P)
 	return b.String()
 }
